@@ -127,11 +127,17 @@ func entryPoints() []entryPoint {
 		{"delegation.FromSealed", func(in []byte) error { t, _, e := delegation.FromSealed(in); return useToken(t, e) }},
 		{"delegation.FromDagJson", func(in []byte) error { t, e := delegation.FromDagJson(in); return useToken(t, e) }},
 		{"invocation.FromSealed", func(in []byte) error { t, _, e := invocation.FromSealed(in); return useToken(t, e) }},
-		{"invocation.FromDagJsonReader", func(in []byte) error { t, e := invocation.FromDagJsonReader(bytes.NewReader(in)); return useToken(t, e) }},
+		{"invocation.FromDagJsonReader", func(in []byte) error {
+			t, e := invocation.FromDagJsonReader(bytes.NewReader(in))
+			return useToken(t, e)
+		}},
 		{"container.FromCar", func(in []byte) error { c, e := container.FromCar(in); return useContainer(c, e) }},
 		{"container.FromCbor", func(in []byte) error { c, e := container.FromCbor(in); return useContainer(c, e) }},
 		{"container.FromCarBase64", func(in []byte) error { c, e := container.FromCarBase64(in); return useContainer(c, e) }},
-		{"container.FromCborBase64Reader", func(in []byte) error { c, e := container.FromCborBase64Reader(bytes.NewReader(in)); return useContainer(c, e) }},
+		{"container.FromCborBase64Reader", func(in []byte) error {
+			c, e := container.FromCborBase64Reader(bytes.NewReader(in))
+			return useContainer(c, e)
+		}},
 		{"policy.FromDagJson+Match", func(in []byte) error {
 			p, e := policy.FromDagJson(string(in))
 			if e != nil {
